@@ -252,9 +252,10 @@ PROPERTIES = {
                        "increments; each loop has an invariant bounding it (for-loops: in step with the loop variable; the two range-reduction "
                        "loops of sin: at most one round each after the exact remainder) and `assert(vticks <= 4 * w + 64)` stands at every exit "
                        "(log2_inner: both loops together at most 2 w + 2, the integer-part loop by a halving invariant); "
-                       "while / loop loops get `decreases bound - vticks`.  ln, log2, pow, cos have no loops of their own.  Kani: every harness "
+                       "while / loop loops get `decreases bound - vticks`.  ln, log2, pow, cos have no loops of their own: their counters add the proved bounds of their callees at the call sites.  Kani: every harness "
                        "reads the hook iteration counter after the call and asserts ticks <= 4 * width + 64 (loops closed by unwinding assertions)",
-        "not_covered": ["log2_inner's own counter is bounded by 2 w + 2 in unit log2inner and cordic_rotation's by 25 in unit trig (added at sin's call site), but the counter of a caller (log2, ln, pow) includes a callee's loops only where the template adds them at the call site"],
+        "not_covered": ["tan (Kani on I9F23 only); the ghost counter is not part of a callee's contract: a caller adds the callee's proved bound by hand at the call site "
+                        "(log2 / ln: 2 w + 2 for log2_inner; pow: ln + exp = 3 w + 2; sin: 25 for cordic_rotation; cos: 27 for sin)"],
     },
     "C18": {
         "level": "proof",
